@@ -18,10 +18,13 @@
    no subscription any more (C07_reset_disconnects, C10_no_orphan_subscription).
    The networks may use SEVERAL evaluators (bindings and evaluateAll calls through any of them): the theorems speak about the bindings
    registered with the evaluator `ev` that is asked to evaluate; the others are only marked (C06_several_evaluators_example).
+   "Emits change notifications only for values that actually changed" (coq/PropNotify.v): in ANY world a Binding::evaluate whose result
+   equals the current value calls no observer and changes no property; in worlds of evaluator-driven bindings an evaluateAll changes no
+   property that is not registered with it, and if it leaves every registered property with the value it had it has called no observer.
    PARTIAL: mixed worlds (immediate and evaluator-driven bindings together, acting observers, replacement and destruction) are covered by the extracted checker PropCheck.check_c06_after_evalall on every evaluateAll of every generated
    history and by correspondence. *)
 From KDB Require Import Util PropDefs PropProofs.
-From KDB Require PropAbs PropAbsLazy PropCheck PropSim PropSimLazy PropGrowLazy PropGrowMore PropGrowLazyMore PropReg PropMoveLazy.
+From KDB Require PropAbs PropAbsLazy PropCheck PropSim PropSimLazy PropGrowLazy PropGrowMore PropGrowLazyMore PropReg PropMoveLazy PropNotify.
 
 (* a notification reaching a node of an evaluator-driven binding only sets dirty flags *)
 Theorem C06_notification_only_marks :
@@ -210,6 +213,56 @@ Example C06_move_assignment_example :
       (filter (fun e => match e with EvVal _ => true | _ => false end) (w_trace (run fn true 8 (ops ++ [BevEvalAll 0; PGet 3; PGet 2]))))
   = [Some 10%Z; Some 8%Z].
 Proof. split; [vm_compute; repeat split; reflexivity|vm_compute; reflexivity]. Qed.
+
+(* ---- "... and emits change notifications only for values that actually changed" (coq/PropNotify.v) ---- *)
+(* any world, any observers, any evaluation mode: a Binding::evaluate whose result equals the current value of its property stops in
+   setHelper's equality test - no observer is called, no property and no connection table changes *)
+Theorem C06_equal_result_notifies_nobody :
+  forall fn rtl fuel w b x q pr t v lg w' r,
+    get_bind w b = Some x -> b_target x = Some q -> lookup (w_props w) q = Some pr ->
+    eval fn rtl (values w) (b_root x) = (t, inl v, lg) -> v = pr_value pr ->
+    binding_evaluate fn rtl (set_helper fn rtl (S fuel)) w b = (w', r) ->
+    r = None /\ PropNotify.notes w' = PropNotify.notes w /\ w_props w' = w_props w /\ w_tables w' = w_tables w.
+Proof. exact PropNotify.evaluate_equal_result_notifies_nobody. Qed.
+Print Assumptions C06_equal_result_notifies_nobody.
+
+(* worlds of evaluator-driven bindings: evaluateAll changes no property that is not registered with the evaluator asked, and if every
+   registered property has afterwards the value it had before, no observer at all has been called *)
+Theorem C06_evaluate_all_notifies_only_changes :
+  forall fn rtl ev fuel w e st w',
+    PropSimLazy.LSC ev w -> lookup (w_bevs w) e = Some ev -> nth_error (w_evps w) ev = Some st ->
+    NoDup (PropSimLazy.regs_of w (ep_registry st)) ->
+    step1 fn rtl fuel w (BevEvalAll e) = (w', None) ->
+    (forall p, ~ In p (PropSimLazy.regs_of w (ep_registry st)) -> values w' p = values w p) /\
+    ((forall q, In q (PropSimLazy.regs_of w (ep_registry st)) -> values w' q = values w q) -> PropNotify.notes w' = PropNotify.notes w).
+Proof. exact PropNotify.lazy_evalall_notifies_only_changes. Qed.
+Print Assumptions C06_evaluate_all_notifies_only_changes.
+
+(* ... the premises hold after every history of the networks above (creations, observers, bindings through evaluators, assignments,
+   evaluateAll, reset, destruction of unread properties, both moves) *)
+Theorem C06_network_notifies_only_changes :
+  forall fn rtl ev, ev <> 0 -> forall f ops e w',
+    PropMoveLazy.lazy_run3_ok fn rtl f world0 ops ->
+    lookup (w_bevs (run fn rtl (S f) ops)) e = Some ev ->
+    step1 fn rtl (S f) (run fn rtl (S f) ops) (BevEvalAll e) = (w', None) ->
+    forall st, nth_error (w_evps (run fn rtl (S f) ops)) ev = Some st ->
+    (forall p, ~ In p (PropSimLazy.regs_of (run fn rtl (S f) ops) (ep_registry st)) -> values w' p = values (run fn rtl (S f) ops) p) /\
+    ((forall q, In q (PropSimLazy.regs_of (run fn rtl (S f) ops) (ep_registry st)) -> values w' q = values (run fn rtl (S f) ops) q) ->
+     PropNotify.notes w' = PropNotify.notes (run fn rtl (S f) ops)).
+Proof. exact PropNotify.lazy3_reachable_notifies_only_changes. Qed.
+Print Assumptions C06_network_notifies_only_changes.
+
+(* non-vacuity: property 1 = g(0) with g constant 5, observed; the input changes, evaluateAll runs g (EvFn 9 is logged) and the result is
+   the old value: the observer of property 1 is not called; the second binding 2 = 0 + 2 changes and ITS observer is called once *)
+Example C06_notifies_only_changes_example :
+  let fn := fun (f : nat) (l : list Z) => if Nat.eqb f 9 then Some 5%Z else Some (fold_right Z.add (Z.of_nat f) l) in
+  let ops := [PNew 0 1%Z; BevNew 0; PBind 1 (EOp1 9 (EProp 0)) (MEvaluator 0); PBind 2 (EOp1 2 (EProp 0)) (MEvaluator 0);
+              PObserve 1 KChanged 100 0 None; PObserve 2 KChanged 200 1 None; PSet 0 7%Z WSet] in
+  PropMoveLazy.lazy_run3_ok fn true 7 world0 ops /\
+  PropNotify.notes (run fn true 8 ops) = [] /\
+  PropNotify.notes (run fn true 8 (ops ++ [BevEvalAll 0])) = [EvNotify 200 KChanged [9%Z] (Some 9%Z)] /\
+  filter (fun e => match e with EvFn _ => true | _ => false end) (w_trace (run fn true 8 (ops ++ [BevEvalAll 0]))) = [EvFn 2; EvFn 9; EvFn 2; EvFn 9].
+Proof. split; [vm_compute; repeat split; reflexivity|]. split; [vm_compute; reflexivity|]. split; vm_compute; reflexivity. Qed.
 
 (* ---- "Bindings that were reset, replaced or destroyed are never evaluated again", for EVERY history (coq/PropReg.v) ---- *)
 (* all three end in ~Binding = destroy_binding, which leaves the binding dead ... *)
